@@ -6,7 +6,10 @@ use error_set::ErrContext;
 use iggy::error::IggyError;
 use iggy::identifier::Identifier;
 use iggy::locking::IggySharedMutFn;
+#[cfg(not(kani))]
 use tokio::sync::RwLock;
+#[cfg(kani)]
+use iggy::verif_model::lock::RwLock;
 
 impl System {
     pub fn get_consumer_group(
